@@ -1441,7 +1441,18 @@ func (c *connection) Join(conn net.Conn, id string, dial gen.NetworkDial, tail [
 				if err != nil {
 					continue
 				}
+				c.pool_mutex.Lock()
+				if c.terminated {
+					// terminated while dialing: Terminate has not seen this link
+					c.pool_mutex.Unlock()
+					nc.Close()
+					c.wg.Done()
+					return
+				}
 				pi.connection = nc
+				// the writer must go with the link (it wraps the closed one)
+				pi.fl = lib.NewFlusher(nc)
+				c.pool_mutex.Unlock()
 				tail = t
 
 				goto re
